@@ -157,6 +157,7 @@ class Lc:
         self.lcapy = lcapy
         self.sympy = sympy
         self.ssym = lcapy.s.sympy
+        self.named = {}          # symbol name -> Fraction: values of leaves given as symbols (`R('R1')`)
 
     def arg(self, x):
         """numeric argument: int when integral else an exact string"""
@@ -171,6 +172,10 @@ class Lc:
                 return (L.Ser if t.op == 'S' else L.Par)(*args)
         k, p = t.kind, t.p
         A = self.arg
+        if getattr(t, 'symname', None) and k in ('R', 'L', 'C'):
+            # the value is a symbol that doubles as the element's name in the generated netlist
+            self.named[t.symname] = Fraction(p[0])
+            return getattr(L, k)(t.symname)
         if k == 'R':
             return L.R(A(p[0]))
         if k == 'G':
@@ -211,6 +216,9 @@ class Lc:
             # floats are never compared
             raise FloatResult(str(x)[:80])
         x = x.subs(self.ssym, S.Rational(s.numerator, s.denominator))
+        if self.named:
+            x = x.subs({sym: S.Rational(self.named[sym.name].numerator, self.named[sym.name].denominator)
+                        for sym in x.free_symbols if sym.name in self.named})
         if x.has(S.zoo) or x.has(S.nan) or x.has(S.oo):
             return None
         if not x.is_Rational:
@@ -569,15 +577,31 @@ def run_oneport(chk, drv, L, state):
         _t[0] = now
 
     fixed = fixed_combine_cases(rng)
+    n_plain = len(fixed)
+
+    def sym(kind, name, ic=None):
+        lf = Leaf(kind, rnd_pos(rng)) if kind == 'R' else Leaf(kind, rnd_pos(rng), ic)
+        lf.symname = name
+        return lf
+    # leaves whose value is a symbol equal to an element name, followed by automatically named leaves of the same kind
+    fixed += [Node('P', [sym('R', 'R1'), Leaf('R', rnd_pos(rng))]),
+              Node('S', [sym('R', 'R1'), Leaf('R', rnd_pos(rng)), Leaf('L', rnd_pos(rng), None)]),
+              Node('P', [Node('S', [sym('R', 'R1'), Leaf('V', 'step', rnd_any(rng))]), Leaf('C', rnd_pos(rng), None),
+                         Node('S', [Leaf('R', rnd_pos(rng)), sym('C', 'C2')])]),
+              Node('S', [sym('L', 'L1'), Leaf('L', rnd_pos(rng), None), Leaf('R', rnd_pos(rng))]),
+              Node('P', [sym('C', 'C1'), Leaf('C', rnd_pos(rng), None), Leaf('R', rnd_pos(rng))])]
     for case0 in range(len(fixed) + n_trees):
         case = case0 - len(fixed)
         light = case < 0
+        named_case = light and case0 >= n_plain
+        L.named = {}
         family = 'transient' if case % 3 != 2 else 'resistive'
         illposed = (case % 10 == 9)
         depth = 1 + abs(case) % max_depth
         if light:
-            family, illposed = 'combine-table', False
+            family, illposed = ('named-symbol' if named_case else 'combine-table'), False
             tree = fixed[case0]
+            light = not named_case         # the named cases go through the netlist route as well
         elif case % 4 == 1:
             family, illposed = 'combine', False
             tree = gen_combine_tree(rng, case % 3)
@@ -982,8 +1006,15 @@ def run_twoport(chk, drv, L, state):
             out.append((w, (V1, I1, V2, I2)))
         return out
 
-    for case in range(n_cases):
-        spec = gen_twoport(rng, case)
+    # connections of two PLAIN Series / Shunt sections (the shapes `simplify()` of Chain / Par2 / Ser2 rewrites), on every run
+    fixed_specs = []
+    for conn in ('Chain', 'Par2'):
+        for sec in ('Series', 'Shunt'):
+            if conn == 'Par2' and sec == 'Shunt':
+                continue            # two shunt arms in parallel have no Y matrix
+            fixed_specs.append(TPSpec(conn, subs=[TPSpec(sec, [gen_op(rng)]), TPSpec(sec, [gen_op(rng)])]))
+    for case in range(-len(fixed_specs), n_cases):
+        spec = fixed_specs[case] if case < 0 else gen_twoport(rng, case)
         s = rnd_point(rng)
         toks = ' '.join(spec.tokens())
         chk.count('twoport-kind', spec.kind)
@@ -1044,6 +1075,22 @@ def run_twoport(chk, drv, L, state):
                         chk.coverage['correspondence']['disagreements'] += 1
                         disagreements.append({'what': 'twoport.%sparams:%s' % (X, spec.kind), 'twoport': toks, 's': fstr(s),
                                               'lcapy': [fstr(v) for v in lc[X]], 'model': r})
+
+        # ---- oracle g: simplify() of a two-port must not change its parameters
+        if finite:
+            try:
+                with time_limit(tlimit), contextlib.redirect_stdout(io.StringIO()):
+                    bsimp = mat_at(tp.simplify().Bparams, s)
+                if all(v is not None for v in bsimp):
+                    chk.count('twoport-simplify', 'same' if bsimp == lc['B'] else 'differs')
+                    if bsimp != lc['B']:
+                        finding({'kind': 'twoport', 'cause': 'simplify-changes-params', 'class': spec.kind},
+                                dict(replay, simplified_B=[fstr(v) for v in bsimp]),
+                                '%s.simplify().Bparams differs from %s.Bparams' % (spec.kind, spec.kind))
+            except LcTimeout:
+                chk.count('lcapy-timeout', 'tp.simplify()')
+            except Exception as e:   # noqa
+                chk.count('lcapy-error', 'tp.simplify():%s' % type(e).__name__)
 
         # ---- oracle a: parameters extracted from the generated netlist at ports (1,0) and (3,2)
         port_condition = not any(k in ('Hybrid2', 'InverseHybrid2') for k in spec.all_kinds())
@@ -1380,7 +1427,10 @@ def run(chk, replay=None):
                         f.write(text)
     # another check (C08, or a run of this one against a private worktree) regenerates the same files: the lock is
     # released between writing and building, so make sure that what was built is what was generated here
-    for attempt in range(3):
+    for attempt in range(6):
+        if attempt:
+            import time as _t
+            _t.sleep(5 * attempt)
         write_generated()
         broken = chk.lean(props, helper_files=helpers, leanchecker=(chk.tier == 'thorough'))
         if all(os.path.exists(g) and open(g).read() == text for g, text in generated.items()):
